@@ -1,8 +1,95 @@
 import RisorModel.Util
-/-! Line-protocol front end of the C18 model (stub until the model exists). -/
+import RisorModel.C04.Model
+import RisorModel.C18.Model
+/-! Line-protocol front end of the C18 model.
+
+`hist <history>` → `ok <impl outcomes> <impl registers> <impl trace> <spec outcomes> <spec trace> <violated guards>`
+  history  := piece ("|" piece)*            piece := "X" (parse error) | stmt (";" stmt)*
+  stmt     := id:flags:need:leak:pre:uses:asg:vdecl:cdecl:fdefs:calls
+  flags    := subset of "elfn" (isExpr, leaves, fails, inFn) or "-";  lists := n.n.n or "-"
+  outcomes := per piece `ok:<value id>` | `parse` | `compile` | `fail`
+  registers:= per piece `<stack height>:<ip at end of code 1/0>:<code grew 1/0>:<compiler stuck 1/0>`
+  trace    := per piece the statements executed by that piece's run, `id` or `id~` (stale globals view)
+`frag <instruction text>` → `accept <max height>` | `reject <why>`: the real fragment a piece added to
+  the main code is position-independent (all jumps stay inside it), starts on an empty frame-relative
+  stack, never reads below it and ends with exactly one value — C04's verified checker. -/
 namespace Risor.C18
 
+def parseList (s : String) : Option (List Nat) :=
+  if s == "-" then some [] else (s.splitOn ".").mapM String.toNat?
+
+def parseStmt (t : String) : Option Stmt :=
+  match t.splitOn ":" with
+  | [id, fl, need, leak, pre, uses, asg, vd, cd, fd, calls] => do
+    let id ← id.toNat?
+    let need ← need.toNat?
+    let leak ← leak.toNat?
+    let pre ← pre.toNat?
+    let uses ← parseList uses
+    let asg ← parseList asg
+    let vd ← parseList vd
+    let cd ← parseList cd
+    let fd ← parseList fd
+    let calls ← parseList calls
+    let has (c : Char) : Bool := fl.toList.contains c
+    pure { id := id, isExpr := has 'e', leaves := has 'l', fails := has 'f', inFn := has 'n',
+           need := need, leak := leak, pre := pre, uses := uses, asg := asg, vdecl := vd, cdecl := cd,
+           fdefs := fd, calls := calls }
+  | _ => none
+
+def parsePiece (t : String) : Option Piece :=
+  if t == "X" then some .bad else (t.splitOn ";").mapM parseStmt |>.map .stmts
+
+def parseHist (t : String) : Option (List Piece) := (t.splitOn "|").mapM parsePiece
+
+def showOutcome : Outcome → String
+  | .ok v => "ok:" ++ toString v
+  | .parseRejected => "parse"
+  | .compileRejected => "compile"
+  | .failed => "fail"
+
+def showTrace (l : List (Nat × Bool)) : String :=
+  if l.isEmpty then "-" else ".".intercalate (l.map fun (i, st) => toString i ++ (if st then "~" else ""))
+
+def b01 (b : Bool) : String := if b then "1" else "0"
+
+/-- feed the pieces one by one, recording registers and the trace delta of each -/
+def implLog : Repl → List Piece → List (String × String × String)
+  | _, [] => []
+  | r, p :: ps =>
+    let (r1, o) := r.feed p
+    let reg := toString r1.vm.stack.length ++ ":" ++ b01 (r1.vm.ip == r1.comp.code.length) ++ ":" ++
+      b01 (r1.comp.code.length > r.comp.code.length) ++ ":" ++ b01 r1.comp.stuck
+    (showOutcome o, reg, showTrace (r1.vm.trace.drop r.vm.trace.length)) :: implLog r1 ps
+
+def specLog : SpecSt → List Piece → List (String × String)
+  | _, [] => []
+  | s, p :: ps =>
+    let (s1, o) := s.feed p
+    (showOutcome o, showTrace (s1.trace.drop s.trace.length)) :: specLog s1 ps
+
+def bar (l : List String) : String := if l.isEmpty then "-" else "|".intercalate l
+
 def handle : List String → String
-  | _ => "error\tnot-implemented"
+  | ["hist", h] =>
+    match parseHist h with
+    | none => "error\tbad-history"
+    | some ps =>
+      let il := implLog {} ps
+      let sl := specLog {} ps
+      let gs := violatedGuards ps
+      "\t".intercalate ["ok", bar (il.map (·.1)), bar (il.map (·.2.1)), bar (il.map (·.2.2)),
+        bar (sl.map (·.1)), bar (sl.map (·.2)), (if gs.isEmpty then "-" else ",".intercalate gs),
+        b01 (guard ps)]
+  | ["frag", text] =>
+    match C04.decode true text with
+    | .error e => "error\t" ++ e
+    | .ok c =>
+      match C04.infer c with
+      | .error e => "reject\t" ++ e
+      | .ok cert =>
+        if C04.check c cert then "accept\t" ++ toString (C04.maxCert cert)
+        else "reject\tcertificate refused by the verified checker (the fragment does not end with exactly one value)"
+  | _ => "error\tunknown-request"
 
 end Risor.C18
